@@ -1316,6 +1316,8 @@ def list_rules(run, r_link, r_reset, r_pair, r_idem, ast):
                 link = [d for d in info if not d.startswith("N.")]
                 reset = [d for d in info if d.startswith("N.")]
                 verb = "removing the" if what == "remove" else "appending to a list with"
+                if getattr(case, "absent", False):
+                    verb = "unregistering a"
                 run.instance(r_link, "%s: %s %s leaves the list linked as the invariant requires" % (short(f), verb, case.name), (f["file"], f["line"]), ok=not link)
                 if link:
                     run.violation(r_link, "static_list::%s|%s" % (what, case.name), "%s %s: %s" % (verb, case.name, "; ".join(link)), (f["file"], f["line"]))
@@ -1328,9 +1330,10 @@ def list_rules(run, r_link, r_reset, r_pair, r_idem, ast):
     for lst, ops in kept.items():
         fields = {c for op in ops.values() for cs, _ in op.values() for c in cs}
         for c in sorted(fields):
-            for what, want in (("push_back", 1), ("remove", -1)):
+            for what, want0 in (("push_back", 1), ("remove", -1)):
                 for cname, (cs, f) in sorted(ops.get(what, {}).items()):
-                    okc = cs.get(c) == want
+                    want = 0 if cname.startswith("node not in the") else want0
+                    okc = cs.get(c, 0) == want if want == 0 else cs.get(c) == want
                     run.instance(r_link, "%s: the element count `%s` follows %s (%s)" % (short(f), c, what, cname), (f["file"], f["line"]), ok=okc)
                     if not okc:
                         run.violation(r_link, "static_list::%s|count|%s" % (what, cname), "the list keeps an element count `%s`; %s changes it by %s instead of %+d when %s: size() no longer reports the number of linked items" % (
@@ -2000,8 +2003,33 @@ def best_rules(run, rule, ast):
                 if k == "CXXMemberCallExpr" and not n.get("cconst"):
                     return True
                 return False
-            ps = astq.enum_paths(lp["body"], decide, want)
+            def decide2(c, case=case):
+                """as decide, through !, && and ||: a sub-condition that is not a specificity test stays open"""
+                c0 = astq.strip(c)
+                if c0 is not None and c0.get("k") == "UnaryOperator" and c0.get("op") == "!":
+                    v = decide2(c0["c"][0])
+                    return None if v is None else not v
+                if c0 is not None and c0.get("k") == "BinaryOperator" and c0.get("op") in ("&&", "||"):
+                    a, b = decide2(c0["c"][0]), decide2(c0["c"][1])
+                    if c0["op"] == "&&":
+                        return False if (a is False or b is False) else True if (a and b) else None
+                    return True if (a is True or b is True) else False if (a is False and b is False) else None
+                return decide(c)
+            ps = astq.enum_paths(lp["body"], decide2, want)
             if len(ps) != 1:
+                # the step depends on something besides the specificity relation. What must never happen: with NEITHER more specific,
+                # the candidate is dropped or a member erased (an incomparable definition eliminated: the ambiguity goes unreported)
+                if case == "none" and ps:
+                    for pth in ps:
+                        evs = [astq.text(n) for _, n in pth["events"]]
+                        drops = any(n.get("k") == "BinaryOperator" and astq.strip(n["c"][0]).get("k") == "DeclRefExpr" and astq.strip(n["c"][0])["ref"]["did"] == cand_did for _, n in pth["events"])
+                        erases = any(x.get("k") == "CXXMemberCallExpr" and re.search(r"::(erase|clear|pop_back)$", x.get("callee") or "") for _, n in pth["events"] for x in astq.walk(n))
+                        if drops or erases:
+                            g = [astq.text(c)[:70] for c, v in pth["guards"]]
+                            run.instance(rule, "%s: an incomparable pair leaves both definitions in the running" % short(f), (f["file"], lp["l"]), ok=False)
+                            run.violation(rule, "compiler::best|step|none", "with neither definition more specific than the other, the step still %s depending on `%s`: equally specific definitions are no longer all kept, the ambiguity goes unreported and uncounted" % (
+                                "drops the candidate" if drops else "erases a member", "; ".join(g)), (f["file"], lp["l"]))
+                            break
                 unknown = True
                 break
             acts = []
@@ -2023,6 +2051,8 @@ def best_rules(run, rule, ast):
             if ps[0].get("jump") == "BreakStmt":
                 acts.append("stop-scan")
             table[case] = acts
+        if unknown and any(v["key"] == "compiler::best|step|none" and v["rule"] == rule for v in run.violations):
+            continue
         if unknown:
             run.broken.append("%s: the per-pair step of best() is not a deterministic function of the relation between the candidate and the member" % short(f))
             continue
@@ -3261,3 +3291,50 @@ def record_vptr_rules(run, rule, ast):
         if not ok:
             run.violation(rule, "compiler::install_gv|record-vptrs", "install_gv stores a class's v-table pointer through the static_vptr of the FIRST registration record only (the one augment_classes kept): a class known through several records "
                           "- several ids projected onto one class - leaves the other records' static v-table pointers null; final / make_virtual_shared / the exact-type constructor route of those records then hand out a null v-table pointer", (f["file"], f["line"]))
+
+
+def postfix_rules(run, rule):
+    """the postfix increment of the catalog iterators (`*it++` walks) returns the position BEFORE the step: a copy of *this taken
+    before the iterator advances (or std::exchange of the node pointer)."""
+    src = """
+#include <yorel/yomm2/core.hpp>
+using namespace yorel::yomm2;
+namespace ypf { void walk() { auto& l = policy::release::classes; auto i = l.begin(); i++; const auto& cl = l; auto j = cl.begin(); j++;
+  auto& m = policy::release::methods; auto k = m.begin(); k++; const auto& cm = m; auto q = cm.begin(); q++; } }
+"""
+    ast = astq.Ast(common.ast_json(run, src, "postfix", funcs="static_list<"))
+    n = 0
+    for f in _fn(ast, r"static_list<.*>::(const_)?iterator::operator\+\+$"):
+        if len(f.get("params") or []) != 1:
+            continue
+        n += 1
+        stmts = f["body"].get("c") or []
+        rets = [x for x in astq.walk(f["body"]) if x.get("k") == "ReturnStmt" and x.get("c")]
+        ok, why = None, None
+        if len(rets) == 1:
+            r = astq.strip(rets[0]["c"][0])
+            while r is not None and r.get("k") == "CXXConstructExpr" and len(r.get("c") or []) == 1:
+                r = astq.strip(r["c"][0])
+            adv = [k for k, st in enumerate(stmts) if any((x.get("k") in ("CXXOperatorCallExpr", "CXXMemberCallExpr") and ((x.get("oop") == "++") or (x.get("callee") or "").endswith("::operator++"))) or
+                                                           (x.get("k") == "BinaryOperator" and x.get("op") == "=" and (astq.strip(x["c"][0]) or {}).get("member") == "ptr") for x in astq.walk(st))]
+            if r is not None and r.get("k") == "DeclRefExpr" and r["ref"].get("storage") == "local":
+                decl = [(k, d) for k, st in enumerate(stmts) if st.get("k") == "DeclStmt" for d in st["decls"] if d.get("did") == r["ref"]["did"]]
+                if decl and adv:
+                    k, d = decl[0]
+                    copies_this = d.get("init") is not None and any(x.get("k") == "CXXThisExpr" for x in astq.walk(d["init"])) and not (d.get("type") or "").rstrip().endswith("&")
+                    ok = copies_this and k < adv[0]
+                    why = "the returned variable is not a copy of *this taken before the step"
+            elif r is not None and any((x.get("k") in ("CXXOperatorCallExpr", "CXXMemberCallExpr") and (x.get("oop") == "++" or (x.get("callee") or "").endswith("::operator++"))) for x in astq.walk(r)):
+                ok, why = False, "it returns the result of the prefix increment, i.e. the position AFTER the step"
+            elif r is not None and r.get("k") == "UnaryOperator" and r.get("op") == "*" and astq.strip(r["c"][0]).get("k") == "CXXThisExpr" and adv:
+                ok, why = False, "it returns *this after advancing it"
+            elif r is not None and any(x.get("k") == "CallExpr" and re.match(r"^std::exchange<", x.get("callee") or "") for x in astq.walk(rets[0])):
+                ok = True
+        if ok is None:
+            run.broken.append("%s: postfix increment in a form this rule does not classify" % short(f))
+            continue
+        run.instance(rule, "%s: the postfix increment returns the position before the step" % short(f), (f["file"], f["line"]), ok=ok)
+        if not ok:
+            run.violation(rule, "static_list::iterator::operator++(int)", "%s: %s - a `*it++` walk skips the first registration and yields the end position as if it were an item" % (short(f), why), (f["file"], f["line"]))
+    if n < 2:
+        run.broken.append("postfix increments of the catalog iterators not found in the unit (%d)" % n)
